@@ -4,7 +4,7 @@
 #  (2) the demonstration fails with the change and passes without it.
 # Then store it under /verif/seeded/<name>/ and remove the scratch worktree.
 set -u
-ID=$1; NAME=$2; SRC=/tmp/seed/$ID; WT=/tmp/wt/confirm_$NAME
+ID=$1; NAME=$2; SRC=${SEEDROOT:-/tmp/seed}/$ID; WT=/tmp/wt/confirm_$NAME
 export CARGO_NET_OFFLINE=true
 cd /repo && git worktree add -q --detach $WT HEAD || exit 2
 cd $WT
@@ -17,12 +17,12 @@ cargo test --workspace --offline 2>&1 | grep -E "^test result|FAILED|failed" | s
 SUITE=${PIPESTATUS[0]}
 mkdir -p $(dirname $DEMO_PATH); cp $SRC/demo.rs $DEMO_PATH
 echo "== demo WITH change (expect failure)"
-( cd $WT && eval "${DEMO_CMD#cd * && }" ) > /tmp/seed/$ID/demo_with.log 2>&1; W=$?
-grep -E "^test result|panicked|FAILED" /tmp/seed/$ID/demo_with.log | head -5
+( cd $WT && eval "${DEMO_CMD#cd * && }" ) > $SRC/demo_with.log 2>&1; W=$?
+grep -E "^test result|panicked|FAILED" $SRC/demo_with.log | head -5
 git apply -R $SRC/patch.diff
 echo "== demo WITHOUT change (expect pass)"
-( cd $WT && eval "${DEMO_CMD#cd * && }" ) > /tmp/seed/$ID/demo_without.log 2>&1; WO=$?
-grep -E "^test result|panicked|FAILED" /tmp/seed/$ID/demo_without.log | head -5
+( cd $WT && eval "${DEMO_CMD#cd * && }" ) > $SRC/demo_without.log 2>&1; WO=$?
+grep -E "^test result|panicked|FAILED" $SRC/demo_without.log | head -5
 echo "RESULT suite_rc=$SUITE demo_with_rc=$W demo_without_rc=$WO"
 cd /repo && git worktree remove --force $WT
 if [ $W -ne 0 ] && [ $WO -eq 0 ]; then
